@@ -211,6 +211,43 @@ def run(prop, tier):
                                 cand.append((e.mcv, mk_event(si, e, [vals[0] + 5, 1])))
                             else:
                                 cand.append((e.mcv, mk_event(si, e, vals)))
+                # ---- (A2) unlisted codes again right after each listed event of their own category (inside an open flush, region,
+                # mark, task ...): what the handler does with an unknown value may depend on what is open
+                tasks2, meta2 = [], []
+                seen_ctx = set()
+                for (m_, ev) in cand:
+                    if m_ in seen_ctx or m_[:2] == "OH":
+                        continue
+                    seen_ctx.add(m_)
+                    pr2 = []
+                    for v in PRINTABLE:
+                        mcv = m_[:2] + v
+                        if mcv in by_mcv:
+                            continue
+                        pays = [b"", bytes(16)]
+                        if m_[:2] == "OM":
+                            pays += [i64(1) + i32(0), i64(1) + i32(1)]
+                        pr2 += [Ev(A if ev[0] == A else ev[0], mcv, pay) for pay in pays]
+                    if pr2:
+                        tasks2.append((prefix + [ev], pr2))
+                        meta2.append(m_)
+                acc2 = {}
+                n2 = 0
+                for m_, (hres, pres) in zip(meta2, pool.expand_many(tasks2)):
+                    if not hres.get("ok"):
+                        continue            # this listed event is not legal right after the prefix: no context
+                    for r, pe in zip(pres, dict(zip(meta2, [t[1] for t in tasks2]))[m_]):
+                        n2 += 1
+                        if r.crashed:
+                            ctx.violation("model %s: unlisted code %r after %s crashes the emulator: %s" % (model, pe[2], m_, r.msg),
+                                          {"engine": "E3", "model": model, "mcv": pe[2], "after": m_}, {"kind": "crash", "mcv": pe[2]})
+                        elif r.ok and not (pe[2][1] in IGNORED_VALUE.get(ch, "") or pe[2] in legacy):
+                            acc2.setdefault(pe[2], m_)
+                ctx.add(evaluations=n2, transitions=n2)
+                for mcv, after in sorted(acc2.items()):
+                    ctx.violation("model %s: code %r is not listed by ovnievents but the handler accepts it right after %s" % (model, mcv, after),
+                                  {"engine": "E3", "model": model, "mcv": mcv, "after": after, "prefix": [e.line() for e in prefix], "flags": pool.flags},
+                                  {"kind": "unlisted-accepted", "mcv": mcv})
                 # thread states in which the model's events are legal (DESIGN.md A.5): nOS-V and Nanos6 events only need an
                 # active thread, so the search is repeated from a cooling and from a warming thread
                 ctxs = [("running", [])]
